@@ -134,16 +134,23 @@ Vals(t) ==
                            \o [i \in 1..n |-> [c |-> i, v |-> per[i][1]]]
                            \o [i \in 1..n |-> [c |-> i, v |-> Nth(per[i], 2)]]
     [] t.k = "enum" -> [i \in 1..Len(t.syms) |-> t.syms[i].v] \o << IF t.base \in SignedPrims THEN NegSmall(7) ELSE SmallInt(77) >>
-    [] t.k = "flags" -> \* every symbol alone, none, first two together, all, an undefined bit
-                        << SmallInt(0) >> \o [i \in 1..Len(t.syms) |-> t.syms[i].v]
-                        \o << Nat0(OrBits({ t.syms[i].bit : i \in 1..(IF Len(t.syms) < 2 THEN Len(t.syms) ELSE 2) })),
-                              Nat0(OrBits({ t.syms[i].bit : i \in 1..Len(t.syms) })),
-                              Nat0(OrBits({ t.syms[1].bit, 5 })) >>
+    [] t.k = "flags" -> \* every symbol alone, none, first two together, all, an undefined bit; for symbols of several bits also
+                        \* every single bit of such a symbol alone (only part of the symbol is set) and with the last symbol
+                        LET AllBits == UNION { t.syms[i].bits : i \in 1..Len(t.syms) }
+                            Multi == { i \in 1..Len(t.syms) : Cardinality(t.syms[i].bits) > 1 }
+                            Parts == SetToSeq(UNION { { {b}, {b} \cup t.syms[Len(t.syms)].bits } : b \in UNION { t.syms[i].bits : i \in Multi } })
+                        IN << SmallInt(0) >> \o [i \in 1..Len(t.syms) |-> t.syms[i].v]
+                           \o << Nat0(OrBits(UNION { t.syms[i].bits : i \in 1..(IF Len(t.syms) < 2 THEN Len(t.syms) ELSE 2) })),
+                                 Nat0(OrBits(AllBits)),
+                                 Nat0(OrBits(t.syms[1].bits \cup {5})) >>
+                           \o [i \in 1..Len(Parts) |-> Nat0(OrBits(Parts[i]))]
     [] t.k = "rec" -> LET n == Len(t.fields)
                           per == [i \in 1..n |-> Vals(t.fields[i].t)]
                           m == IF n = 0 THEN 1 ELSE 3
                       IN [j \in 1..m |-> [i \in 1..n |-> Nth(per[i], j + i - 1)]]
 
 \* a flags symbol: name, bit position, value = 2^bit
-FlagSym(s, bit) == [s |-> s, bit |-> bit, v |-> Nat0(Pow2(bit))]
+FlagSym(s, bit) == [s |-> s, bits |-> {bit}, v |-> Nat0(Pow2(bit))]
+\* a flags symbol that stands for several bits (`readWrite: 3`)
+FlagSymM(s, bits) == [s |-> s, bits |-> bits, v |-> Nat0(OrBits(bits))]
 =============================================================================
